@@ -50,6 +50,7 @@ func (c *Collection) Condense(treatErrorAsTerminal bool) (Provider, error) {
 	// Annotate providers so that the last provider in the collection will
 	// be treated as a final function and it's return values will be
 	// upOut upflows.
+	var downIn, upOut []reflect.Type
 	{
 		nonStaticTypes := make(map[typeCode]bool)
 		beforeInvoke, afterInvoke, err := c.characterizeAndFlatten(nonStaticTypes)
@@ -63,11 +64,15 @@ func (c *Collection) Condense(treatErrorAsTerminal bool) (Provider, error) {
 		for _, fm := range afterInvoke {
 			ia = append(ia, fm)
 		}
-		c = Sequence(name, ia...)
+		// The characterized providers are only used to compute the flows.  What gets
+		// bound is the collection as given: Bind characterizes it knowing which types
+		// arrive as invoke arguments, exactly as it would if the collection were bound
+		// directly.
+		characterized := Sequence(name, ia...)
+		downIn, _ = characterized.DownFlows()
+		_, upOut = characterized.UpFlows()
+		c = Sequence(name, c)
 	}
-
-	downIn, _ := c.DownFlows()
-	_, upOut := c.UpFlows()
 
 	// If we've got debugging going on inside the condensed collection, let's
 	// pipe in the debugging from the outer collection too.  To do that, we
